@@ -151,6 +151,69 @@ func Apply(created, gone bool) {
 	}
 }
 
+// --- a table of lazy checks
+func Table(x, y int) error {
+	var err error
+	for _, check := range []struct {
+		failed func() bool
+		reason string
+	}{
+		{func() bool { return x < 0 }, "negative"},
+		{func() bool { return y/x > 3 }, "too steep"},
+	} {
+		if check.failed() {
+			err = errors.New(check.reason)
+			break
+		}
+	}
+	if err != nil {
+		return err
+	}
+	sink(x)
+	return nil
+}
+
+// --- range over a function iterator
+func below(n int) func(yield func(int) bool) {
+	return func(yield func(int) bool) {
+		for i := n; i > 0; i-- {
+			if _, err := a(); err != nil {
+				return
+			}
+			if !yield(i - 1) {
+				return
+			}
+		}
+	}
+}
+
+func Iterate(n int) {
+	for v := range below(n) {
+		if v == 3 {
+			continue
+		}
+		sink(v)
+	}
+}
+
+// --- a flag tested twice
+func Twice(p *int) error {
+	fresh := p == nil
+	var err error
+	if fresh {
+		p = new(int)
+		err = call()
+	}
+	if err != nil {
+		return err
+	}
+	sink(*p)
+	if fresh {
+		put()
+	}
+	return nil
+}
+
 // --- flag of either polarity with a deferred clean-up
 func release() {}
 func broadcast() error { return nil }
@@ -441,4 +504,69 @@ func TestFlagWithDeferredCleanupIsPathExact(t *testing.T) {
 			}
 		}
 	}
+}
+
+
+func TestLiteralTableIsUnrolled(t *testing.T) {
+	p := loadTest(t)
+	v := p.Expand(fn(t, p, "Table"), ExpandOpt{Key: "t", Stop: leaf})
+	g := v.Graph()
+	sink := callNode(t, v, "sink")
+	// the conditions of both rows are leaf conditions of the view, and sink is reached only where both are false
+	var neg, steep []*cfgx.Edge
+	for _, n := range g.Nodes {
+		if n.Block == nil || n.Block.Cond != n.AST || len(n.Succs) != 2 {
+			continue
+		}
+		if be, ok := n.AST.(*ast.BinaryExpr); ok {
+			switch be.Op {
+			case token.LSS:
+				neg = append(neg, n.Succs[1])
+			case token.GTR:
+				steep = append(steep, n.Succs[1])
+			}
+		}
+	}
+	if len(neg) == 0 || len(steep) == 0 {
+		t.Fatalf("table rows not expanded:\n%s", render(t, v.Body))
+	}
+	if !v.OnlyVia(sink, neg) || !v.OnlyVia(sink, steep) {
+		t.Errorf("sink reachable although a row's check failed:\n%s", render(t, v.Body))
+	}
+}
+
+func TestRangeOverFuncIsTheIteratorsLoop(t *testing.T) {
+	p := loadTest(t)
+	v := p.Expand(fn(t, p, "Iterate"), ExpandOpt{Key: "t", Stop: leaf})
+	sink := callNode(t, v, "sink")
+	// the body runs only after a() succeeded in the iterator, and not for v == 3
+	if !v.OnlyVia(sink, successEdges(v, "a")) {
+		t.Errorf("loop body reachable without the iterator's own check:\n%s", render(t, v.Body))
+	}
+	for _, l := range v.Lits {
+		t.Errorf("a literal is left in the view (%s):\n%s", l.Name(), render(t, v.Body))
+		break
+	}
+}
+
+func TestFlagTestedTwiceIsCorrelated(t *testing.T) {
+	p := loadTest(t)
+	v := p.Expand(fn(t, p, "Twice"), ExpandOpt{Key: "t", Stop: leaf})
+	g := v.Graph()
+	put := callNode(t, v, "put")
+	// put() only after call() succeeded (both are under the same flag), and *p is never nil at sink
+	if !v.OnlyVia(put, successEdges(v, "call")) {
+		t.Errorf("put() reachable on a path where the flag was false at its first test:\n%s", render(t, v.Body))
+	}
+	sink := callNode(t, v, "sink")
+	var pobj types.Object
+	for _, fld := range v.Type.Params.List {
+		for _, nm := range fld.Names {
+			pobj = v.Info().Defs[nm]
+		}
+	}
+	if mayBeNil, _, tracked := v.NilAt(sink, pobj); tracked && mayBeNil {
+		t.Errorf("p may be nil at the dereference according to the per-path analysis")
+	}
+	_ = g
 }
